@@ -18,8 +18,10 @@ from harness import core, session, shipped
 FOREST_KW = {"S": 5, "p": 0.125, "r1": 6.0, "r2": 3.0}
 
 
-def child(base, d, oplog, kill_at, asyn, kind, K, f, m, wall_kill=None, resume=False):
+def child(base, d, oplog, kill_at, asyn, kind, K, f, m, wall_kill=None, resume=False, slow=0.0):
     env = core.env_for_impl(1)
+    if slow:
+        env["MDPAXV_SLOW_COMMIT"] = str(slow)
     cmd = [core.PY, str(core.VERIF / "harness" / "crash_child.py"), os.path.join(base, d), oplog, str(kill_at), str(asyn), kind, str(K), str(f), str(m)] + (["resume"] if resume else [])
     if wall_kill is None:
         p = subprocess.run(cmd, env=env, capture_output=True, text=True, timeout=600)
@@ -78,11 +80,15 @@ def run(tier, seed):
                 "bit-identical to the uninterrupted trajectory at that iteration, and continuing reaches the uninterrupted final state. The clean "
                 "run's operation log must be accepted by the model's protocol recogniser. distinct non-trivial = kill points followed by a restore")
     rng = random.Random(seed * 1103 + 11)
-    configs = [("vi", 0, 1, 2), ("vi", 1, 1, 1)] if tier == "quick" else [("vi", 0, 1, 2), ("vi", 1, 1, 1), ("vi", 1, 2, 2), ("rvi", 1, 1, 2), ("periodic", 0, 1, 1), ("pi", 1, 1, 2)]
+    # last component: seconds by which every checkpoint commit is delayed ("slow storage": with asynchronous saving the next save requests then
+    # arrive while a write is still in flight)
+    configs = ([("vi", 0, 1, 2, 0.0), ("vi", 1, 1, 1, 0.0), ("vi", 1, 1, 2, 0.15)] if tier == "quick" else
+               [("vi", 0, 1, 2, 0.0), ("vi", 1, 1, 1, 0.0), ("vi", 1, 2, 2, 0.0), ("rvi", 1, 1, 2, 0.0), ("periodic", 0, 1, 1, 0.0), ("pi", 1, 1, 2, 0.0),
+                ("vi", 1, 1, 2, 0.15), ("rvi", 1, 1, 3, 0.25), ("periodic", 1, 1, 2, 0.15)])
     K = 6
     base = tempfile.mkdtemp(prefix="mdpaxv_c11_")
     try:
-        for (kind, asyn, f, m) in configs:
+        for (kind, asyn, f, m, slow) in configs:
             # reference trajectory: the same solver without checkpointing, one iteration per call
             g = "1" if kind in ("rvi", "periodic") else "1/2"
             new = {"op": "new", "solver": kind, "id": "p", "maxbs": 1024, "gamma": g, "eps": "1/10000000000000" if kind != "pi" else "1/1000", "sid": "ref", "n_hint": 5, "f": 0}
@@ -99,9 +105,20 @@ def run(tier, seed):
             final = refall[-1]
             final_iter = int(final["iter"])
             # clean run: conformance of the observed protocol
-            oplog = os.path.join(base, f"clean_{kind}{asyn}{f}{m}.log")
-            rc = child(base, f"clean_{kind}{asyn}{f}{m}", oplog, 0, asyn, kind, K, f, m)
-            evs, total = events_of(oplog, os.path.join(base, f"clean_{kind}{asyn}{f}{m}"))
+            tagc = f"{kind}{asyn}{f}{m}" + ("slow" if slow else "")
+            oplog = os.path.join(base, f"clean_{tagc}.log")
+            rc = child(base, f"clean_{tagc}", oplog, 0, asyn, kind, K, f, m, slow=slow)
+            evs, total = events_of(oplog, os.path.join(base, f"clean_{tagc}"))
+            if slow:
+                res.count("slow-commit-config")
+                # every retained step of the finished slow run holds the state of the iteration it is labelled with
+                lsr = core.parse_resp(core.run_impl([{"op": "basedir", "path": base}, {"op": "restore", "sid": "r", "dir": f"clean_{tagc}", "solver": kind, "id": "p"},
+                                                     {"op": "ls", "dir": f"clean_{tagc}", "template_sid": "r"}], 1)[2]["resp"])
+                res.evaluations += 1
+                if lsr.get("steps") != lsr.get("stepiters"):
+                    res.disagreements.append({"channel": "C11/label-content", "case": {"config": (kind, asyn, f, m), "commit_delay_s": slow}, "model": f"labels {lsr.get('steps')}",
+                                              "impl": f"hold iterations {lsr.get('stepiters')}", "failing_input": True,
+                                              "what": f"with slow commits the checkpoints labelled {lsr.get('steps')} hold the states of iterations {lsr.get('stepiters')}", "key": "label-content"})
             res.evaluations += 1
             acc = core.parse_resp(core.run_driver([f"accepts evs={','.join(evs) if evs else '-'}"])[0])
             res.count("clean-run-ops", total)
@@ -110,7 +127,7 @@ def run(tier, seed):
                                           "failing_input": False, "what": "the observed filesystem operation sequence of a clean run is not accepted by the store protocol model "
                                           "(commit by rename of a finished temporary directory; deletion only of steps older than the latest)", "key": "protocol"})
                 continue
-            res.sample({"config": (kind, asyn, f, m), "ops": total, "events": evs[:12]})
+            res.sample({"config": (kind, asyn, f, m, slow), "ops": total, "events": evs[:12]})
             # kill points
             commit_ops = []
             n = 0
@@ -132,9 +149,9 @@ def run(tier, seed):
 
             def trial(spec):
                 mode, val = spec
-                d = f"k_{kind}{asyn}{f}{m}_{mode}{str(val).replace('.', '_')}"
+                d = f"k_{tagc}_{mode}{str(val).replace('.', '_')}"
                 lg = os.path.join(base, d + ".log")
-                rc_ = child(base, d, lg, val if mode == "op" else 0, asyn, kind, K, f, m, wall_kill=val if mode == "wall" else None)
+                rc_ = child(base, d, lg, val if mode == "op" else 0, asyn, kind, K, f, m, wall_kill=val if mode == "wall" else None, slow=slow)
                 ev_, npre_ = events_of(lg, os.path.join(base, d))
                 rops = [{"op": "basedir", "path": base}, {"op": "restore", "sid": "r", "dir": d, "solver": kind, "id": "p"}]
                 out = core.run_impl(rops, 1)
@@ -157,10 +174,10 @@ def run(tier, seed):
             lat_lines = core.run_driver([f"accepts evs={','.join(ev) if ev else '-'}" for (_, _, ev, *_rest) in trials])
             for (spec, rc_, ev_, rr, cont, has_cfg, leftovers, raw), ll in zip(trials, lat_lines):
                 res.evaluations += 1
-                res.nontrivial.add((kind, asyn, f, m, spec))
+                res.nontrivial.add((kind, asyn, f, m, slow, spec))
                 dl = core.parse_resp(ll)
                 model_latest = dl["latest_after_prefix"].split(",")[-1]
-                case = {"config": {"solver": kind, "async": asyn, "frequency": f, "max_checkpoints": m, "K": K}, "kill": {"mode": spec[0], "at": spec[1]},
+                case = {"config": {"solver": kind, "async": asyn, "frequency": f, "max_checkpoints": m, "K": K, "commit_delay_s": slow}, "kill": {"mode": spec[0], "at": spec[1]},
                         "completed_events": ev_, "directory_after_kill": leftovers}
                 res.count(f"kill:{spec[0]}"); res.count("restore:" + ("ok" if "iter" in rr else rr.get("error", "?")))
                 if dl.get("accepts") != "true":
@@ -197,7 +214,7 @@ def run(tier, seed):
                     res.disagreements.append({"channel": "C11/restored-state", "case": case, "model": f"latest committed = {model_latest}", "impl": raw[:300], "failing_input": True,
                                               "what": "; ".join(bad), "key": "restored-state"})
         # crash - restore - continue (still checkpointing into the same directory) - crash - restore
-        for (kind, asyn, f, m) in (configs[:1] if tier == "quick" else configs):
+        for (kind, asyn, f, m, _slow) in (configs[:1] if tier == "quick" else configs[:6]):
             g = "1" if kind in ("rvi", "periodic") else "1/2"
             new = {"op": "new", "solver": kind, "id": "p", "maxbs": 1024, "gamma": g, "eps": "1/10000000000000" if kind != "pi" else "1/1000", "sid": "ref", "n_hint": 5, "f": 0}
             if kind == "periodic":
